@@ -1651,3 +1651,84 @@ def rf138(run):
                                'inlined next to a use of this module\'s import of the same name' if want == 0 else
                                'identical references are no longer recognised as one value'), line=f.line)
     return n
+
+
+# ---------------------------------------------------------------------------------------------
+# RF150: the engines take bindings from the item they refer to, not from the live environment
+# ---------------------------------------------------------------------------------------------
+
+def rf150(run):
+    rule = 'RF150'
+    run.rule(rule, 'who may follow `ref_def`: for an import item it points at the entry of the environment table, which setup_global updates '
+                   'in place at every later load.  Only mir.c (creation, MIR_link, the load-time passes) reads the field; the generator '
+                   '(mir-gen.c, mir-gen-x86_64.c) and the interpreter (mir-interp.c) never do — they use item->addr, the binding the link '
+                   'step of the importing module made.  Control: the extractor sees the reads of mir.c')
+    n = 0
+    ctrl = 0
+    for u in ('mir', 'gen'):
+        tu = run.tu(u)
+        for g in tu.func_list:
+            if g.body is None or not g.file.startswith('/repo'):
+                continue
+            engine = g.file.endswith(('mir-gen.c', 'mir-gen-x86_64.c', 'mir-interp.c'))
+            for x in g.walk():
+                if x['k'] == 'MemberExpr' and x['n'] == 'ref_def' and 'MIR_item' in tu.type(x['c'][0]).s:
+                    if not engine:
+                        if u == 'mir':
+                            ctrl += 1
+                        continue
+                    n += 1
+                    run.functions_analysed.add((u, g.name))
+                    run.ob(rule, (g.name, x['l']), False, {'site': '%s:%d %s' % (g.relfile(), x['l'], g.name)})
+                    run.violation(rule, g, 'binding taken from the environment', '%s follows `%s` (line %d): at generation / first-call time the '
+                                  'environment entry names the definition loaded last *by then*, not the one the import was bound to when its '
+                                  'module was linked — a later load changes what an already linked module calls' % (g.name, F.src(x)[:50], x['l']), line=x['l'])
+    run.control(rule, 'reads of ref_def in mir.c', ctrl >= 5)
+    run.ob(rule, ('engines',), n == 0, {'reads of ref_def in the engines': n, 'reads in mir.c (control)': ctrl})
+    return 1
+
+
+# ---------------------------------------------------------------------------------------------
+# RF16m: every address load_bss_data_section hands out lies in the section it allocated
+# ---------------------------------------------------------------------------------------------
+
+def rf16m(run):
+    rule = 'RF16m'
+    run.rule(rule, 'load_bss_data_section: each value assigned to an item\'s `addr` is the result of the section allocation (MIR_malloc) or the '
+                   'running placement pointer, which itself starts at the head\'s address and only advances by item sizes.  An address taken '
+                   'from anywhere else (e.g. the element buffer of the data item) puts the head outside the block that holds the items '
+                   'continuing it')
+    tu = run.tu('mir')
+    f = tu.func('load_bss_data_section')
+    run.functions_analysed.add(('mir', f.name))
+    ptr = None
+    n = 0
+    for x in f.walk():
+        if x['k'] == 'BinaryOperator' and x['op'] == '=':
+            l = F.strip(x['c'][0])
+            if l['k'] == 'MemberExpr' and l['n'] == 'addr' and 'MIR_item' in tu.type(l['c'][0]).s:
+                r = F.strip(x['c'][1])
+                ok = (r['k'] == 'CallExpr' and (r.get('callee') or '').endswith('malloc')) or \
+                     (r['k'] == 'DeclRefExpr' and r.get('dk') == 'local')
+                if ok and r['k'] == 'DeclRefExpr':
+                    ptr = r['n']
+                n += 1
+                run.ob(rule, (x['l'],), ok, {'site': '%s:%d' % (f.relfile(), x['l']), 'assignment': F.src(x)[:70]})
+                if not ok:
+                    run.violation(rule, f, 'item address outside the section', '`%s` gives an item an address that is neither the allocated section nor the '
+                                  'placement pointer: the items that continue the section are allocated elsewhere, so they are not at head + size' %
+                                  F.src(x)[:70], line=x['l'])
+    if ptr is not None:
+        for x in f.walk():
+            if x['k'] in ('BinaryOperator', 'CompoundAssignOperator') and x['op'] in ('=', '+=') and F.src(F.strip(x['c'][0])) == ptr:
+                r = F.strip(x['c'][1])
+                ok = x['op'] == '+=' or (r['k'] == 'MemberExpr' and r['n'] == 'addr') or (r['k'] == 'CallExpr' and (r.get('callee') or '').endswith('malloc')) \
+                    or (r['k'] == 'BinaryOperator' and r['op'] == '+' and ptr in F.src(r))
+                n += 1
+                run.ob(rule, ('ptr', x['l']), ok, {'placement pointer': F.src(x)[:70]})
+                if not ok:
+                    run.violation(rule, f, 'placement pointer leaves the section', '`%s`: the placement pointer is set from something other than the head address '
+                                  'or its own advance' % F.src(x)[:70], line=x['l'])
+    if n < 5:
+        raise F.AnalysisBroken('load_bss_data_section: only %d address assignments found' % n)
+    return n
